@@ -3,7 +3,12 @@ import hashlib
 import json
 import re
 
+import os
+import sys
 import vlib
+
+sys.path.insert(0, os.path.dirname(os.path.abspath(__file__)))
+from t1 import run_t1  # noqa: E402  (T1 leaf translator tie, checks/t1.py)
 
 LEVEL = "proof"
 
@@ -149,6 +154,7 @@ def count_ops(ctx, ops):
 
 def run(ctx):
     ctx.prove("MpcVerif.Props.C15", THEOREMS)
+    run_t1(ctx, ["C15"])          # ot.clmul64 / mul128Generic = Model/Clmul.lean
     if ctx.tier == "thorough":
         ctx.leanchecker("MpcVerif.Props.C15")
     ctx.build_drv()
